@@ -81,7 +81,7 @@ Proof. vm_compute. repeat split; reflexivity. Qed.
 (* ------------------------------------------------------------------------------------------------------
    Added in build session 4 (statements re-stated from the proof files by harness tooling; each is closed by
    exact). *)
-From SplipyModel Require Import Proofs.ObjEval Proofs.SplitTiling Proofs.RestrictDirEval Proofs.SplitEndToEnd Proofs.SplitCompose Transfer.ParamObj Transfer.ParamOps Transfer.ParamOps2 Proofs.PeriodicInsert Proofs.PeriodicSplit Model.SplitSnap Proofs.SplitSnapProofs Transfer.ParamSplitSnap Proofs.AppendEndToEnd.
+From SplipyModel Require Import Proofs.ObjEval Proofs.SplitTiling Proofs.RestrictDirEval Proofs.SplitEndToEnd Proofs.SplitCompose Transfer.ParamObj Transfer.ParamOps Transfer.ParamOps2 Proofs.PeriodicInsert Proofs.PeriodicSplit Model.SplitSnap Proofs.SplitSnapProofs Transfer.ParamSplitSnap Proofs.AppendEndToEnd Model.Subdivide Proofs.SubdivideProofs.
 Open Scope R_scope.
 Theorem C07_split_insert_spec :
   forall (tol : R) (o : obj R) (d p : nat) (k ks : list R),
@@ -731,4 +731,176 @@ Theorem C07_example_rejoin :
              |} 3 [0; 0; 0; 1; 2; 2; 2] (1 / 2) r.
 Proof. exact @example_rejoin. Qed.
 Print Assumptions C07_example_rejoin.
+
+Theorem C07_splitvector_length :
+  forall len parts : nat, (1 <= parts)%nat -> length (splitvector len parts) = parts.
+Proof. exact @splitvector_length. Qed.
+Print Assumptions C07_splitvector_length.
+
+Theorem C07_splitvector_bound :
+  forall len parts i : nat, (1 <= len)%nat -> (1 <= parts)%nat -> In i (splitvector len parts) -> (i < len)%nat.
+Proof. exact @splitvector_bound. Qed.
+Print Assumptions C07_splitvector_bound.
+
+Theorem C07_splitvector_increasing :
+  forall len parts : nat, (1 <= parts <= len)%nat -> Sorted.StronglySorted lt (splitvector len parts).
+Proof. exact @splitvector_increasing. Qed.
+Print Assumptions C07_splitvector_increasing.
+
+Theorem C07_sub_points_knots :
+  forall (tol : R) (o : obj R) (d p : nat) (k : list R) (per1 nd : nat),
+         nth d (o_bases o) dflt_basis = {| b_order := p; b_knots := k; b_per1 := per1 |} ->
+         (1 <= p)%nat -> (p <= length k)%nat -> Forall (fun x : R => In x k) (sub_points tol o d nd).
+Proof. exact @sub_points_knots. Qed.
+Print Assumptions C07_sub_points_knots.
+
+Theorem C07_sub_points_length :
+  forall (tol : R) (o : obj R) (d nd : nat), length (sub_points tol o d nd) = nd.
+Proof. exact @sub_points_length. Qed.
+Print Assumptions C07_sub_points_length.
+
+Theorem C07_subdivide_step :
+  forall (tol : R) (o : obj R) (d p : nat) (k : list R) (nd : nat),
+         0 < tol ->
+         wf_obj_R tol o ->
+         (d < length (o_bases o))%nat ->
+         nth d (o_bases o) dflt_basis = {| b_order := p; b_knots := k; b_per1 := 0 |} ->
+         separated tol k ->
+         (forall v : R, (mult k v <= p)%nat) ->
+         Sorted.Sorted (gap tol) (st p k :: sub_points tol o d nd ++ [en p k]) ->
+         forall acc : list (obj R),
+         exists pieces : list (obj R),
+           sub_split_one tol acc o d nd = Ok (acc ++ pieces) /\
+           length pieces = S nd /\
+           length (sub_points tol o d nd) = nd /\
+           (forall j : nat,
+            (j <= nd)%nat ->
+            let pj := nth j pieces o in
+            let bj := nth d (o_bases pj) dflt_basis in
+            wf_obj_R tol pj /\
+            length (o_bases pj) = length (o_bases o) /\
+            (forall i : nat, i <> d -> nth i (o_bases pj) dflt_basis = nth i (o_bases o) dflt_basis) /\
+            b_order bj = p /\
+            b_per1 bj = 0%nat /\
+            b_start bj = nth j (ends p k (sub_points tol o d nd)) 0 /\
+            b_end bj = nth (S j) (ends p k (sub_points tol o d nd)) 0 /\
+            nth j (ends p k (sub_points tol o d nd)) 0 + 2 * tol <= nth (S j) (ends p k (sub_points tol o d nd)) 0 /\
+            (forall ts : list R,
+             piece_param tol o d p k (sub_points tol o d nd) j ts -> obj_eval tol pj ts = obj_eval tol o ts)).
+Proof. exact @subdivide_step. Qed.
+Print Assumptions C07_subdivide_step.
+
+Theorem C07_sub_dir_concat :
+  forall (tol : R) (d nd : nat) (objs : list (obj R)) (pss : list (list (obj R))),
+         Forall2 (fun (o : obj R) (ps : list (obj R)) => sub_split_one tol [] o d nd = Ok ps) objs pss ->
+         forall acc : list (obj R), sub_dir tol acc objs d nd = Ok (acc ++ concat pss).
+Proof. exact @sub_dir_concat. Qed.
+Print Assumptions C07_sub_dir_concat.
+
+Theorem C07_subdivide_curve :
+  forall (tol : R) (o : obj R) (p : nat) (k : list R) (n : nat),
+         0 < tol ->
+         wf_obj_R tol o ->
+         o_bases o = [{| b_order := p; b_knots := k; b_per1 := 0 |}] ->
+         separated tol k ->
+         (forall v : R, (mult k v <= p)%nat) ->
+         Sorted.Sorted (gap tol) (st p k :: sub_points tol o 0 n ++ [en p k]) ->
+         exists pieces : list (obj R),
+           subdivide tol [o] (NInt n) = Ok pieces /\
+           (forall more : list nat, subdivide tol [o] (NList (n :: more)) = Ok pieces) /\
+           length pieces = S n /\
+           length (sub_points tol o 0 n) = n /\
+           Forall (fun x : R => In x k) (sub_points tol o 0 n) /\
+           (forall j : nat,
+            (j <= n)%nat ->
+            let pj := nth j pieces o in
+            let bj := nth 0 (o_bases pj) dflt_basis in
+            wf_obj_R tol pj /\
+            length (o_bases pj) = 1%nat /\
+            b_order bj = p /\
+            b_per1 bj = 0%nat /\
+            b_start bj = nth j (ends p k (sub_points tol o 0 n)) 0 /\
+            b_end bj = nth (S j) (ends p k (sub_points tol o 0 n)) 0 /\
+            nth j (ends p k (sub_points tol o 0 n)) 0 + 2 * tol <= nth (S j) (ends p k (sub_points tol o 0 n)) 0 /\
+            (forall ts : list R,
+             piece_param tol o 0 p k (sub_points tol o 0 n) j ts -> obj_eval tol pj ts = obj_eval tol o ts)).
+Proof. exact @subdivide_curve. Qed.
+Print Assumptions C07_subdivide_curve.
+
+Theorem C07_subdivide_curve_zero :
+  forall (tol : R) (o : obj R) (p : nat) (k : list R),
+         0 < tol ->
+         wf_obj_R tol o ->
+         o_bases o = [{| b_order := p; b_knots := k; b_per1 := 0 |}] ->
+         separated tol k ->
+         (forall v : R, (mult k v <= p)%nat) ->
+         exists p0 : obj R,
+           subdivide tol [o] (NInt 0) = Ok [p0] /\
+           wf_obj_R tol p0 /\
+           b_order (nth 0 (o_bases p0) dflt_basis) = p /\
+           b_per1 (nth 0 (o_bases p0) dflt_basis) = 0%nat /\
+           b_start (nth 0 (o_bases p0) dflt_basis) = st p k /\
+           b_end (nth 0 (o_bases p0) dflt_basis) = en p k /\
+           (forall t : R, st p k <= t <= en p k -> obj_eval tol p0 [t] = obj_eval tol o [t]).
+Proof. exact @subdivide_curve_zero. Qed.
+Print Assumptions C07_subdivide_curve_zero.
+
+Theorem C07_subdivide_periodic_curve_zero :
+  forall (tol : R) (o : obj R) (b : basis R),
+         o_bases o = [b] ->
+         b_per1 b <> 0%nat ->
+         subdivide tol [o] (NInt 0) = Err IndexError /\ (exists e : err, subdivide tol [o] (NInt 1) = Err e).
+Proof. exact @subdivide_periodic_curve_zero. Qed.
+Print Assumptions C07_subdivide_periodic_curve_zero.
+
+Theorem C07_subdivide_surface :
+  forall (tol : R) (o : obj R) (p0 p1 : nat) (k0 k1 : list R) (n0 n1 : nat),
+         0 < tol ->
+         wf_obj_R tol o ->
+         o_bases o = [{| b_order := p0; b_knots := k0; b_per1 := 0 |}; {| b_order := p1; b_knots := k1; b_per1 := 0 |}] ->
+         separated tol k0 ->
+         separated tol k1 ->
+         (forall v : R, (mult k0 v <= p0)%nat) ->
+         (forall v : R, (mult k1 v <= p1)%nat) ->
+         Sorted.Sorted (gap tol) (st p0 k0 :: sub_points tol o 0 n0 ++ [en p0 k0]) ->
+         Sorted.Sorted (gap tol) (st p1 k1 :: sub_points tol o 1 n1 ++ [en p1 k1]) ->
+         exists mid pieces : list (obj R),
+           sub_dir tol [] [o] 0 n0 = Ok mid /\
+           length mid = S n0 /\
+           subdivide tol [o] (NList [n0; n1]) = Ok pieces /\
+           length pieces = (S n0 * S n1)%nat /\
+           (forall i j : nat,
+            (i <= n0)%nat ->
+            (j <= n1)%nat ->
+            let pi := nth i mid o in
+            let pij := nth (i * S n1 + j) pieces o in
+            let b0 := nth 0 (o_bases pij) dflt_basis in
+            let b1 := nth 1 (o_bases pij) dflt_basis in
+            wf_obj_R tol pij /\
+            length (o_bases pij) = 2%nat /\
+            b_order b0 = p0 /\
+            b_per1 b0 = 0%nat /\
+            b_order b1 = p1 /\
+            b_per1 b1 = 0%nat /\
+            b_start b0 = nth i (ends p0 k0 (sub_points tol o 0 n0)) 0 /\
+            b_end b0 = nth (S i) (ends p0 k0 (sub_points tol o 0 n0)) 0 /\
+            b_start b1 = nth j (ends p1 k1 (sub_points tol o 1 n1)) 0 /\
+            b_end b1 = nth (S j) (ends p1 k1 (sub_points tol o 1 n1)) 0 /\
+            (forall ts : list R,
+             piece_param tol o 0 p0 k0 (sub_points tol o 0 n0) i ts ->
+             piece_param tol pi 1 p1 k1 (sub_points tol o 1 n1) j ts -> obj_eval tol pij ts = obj_eval tol o ts)).
+Proof. exact @subdivide_surface. Qed.
+Print Assumptions C07_subdivide_surface.
+
+Theorem C07_subdivide_count_refuted :
+  exists (tol : Q) (o : obj Q) (n : nat) (pieces : list (obj Q)),
+           subdivide tol [o] (NInt n) = Ok pieces /\ length pieces <> S n.
+Proof. exact @subdivide_count_refuted. Qed.
+Print Assumptions C07_subdivide_count_refuted.
+
+Theorem C07_subdivide_equidistant_refuted :
+  q_domains (subdivide q_tol [q_c] (NInt 1)) = inl [[(0%Q, 2%Q)]; [(2%Q, 3%Q)]] /\
+         q_domains (subdivide q_tol [q_c] (NInt 1)) <> inl [[(0%Q, 3 # 2)]; [(3 # 2, 3%Q)]].
+Proof. exact @subdivide_equidistant_refuted. Qed.
+Print Assumptions C07_subdivide_equidistant_refuted.
 
